@@ -38,7 +38,7 @@ var e8Table = map[string]e8Triage{
 	"websocket.(*RealtimeHandler).HandleParticipantJoin|registry:registered|Session.AddParticipant": {Verdict: "SAFE",
 		Why: "between registering a new session and adding its creator only a third connection that joins by a guessed id and leaves again could end the session; not demonstrated, and the window contains no blocking operation"},
 	"websocket.(*RealtimeHandler).leaveSession|session:empty|SessionStore.Remove": {Verdict: "SAFE",
-		Why: "two last members leaving at once both see an empty session and both call Remove, but Remove acts only on the session currently registered under its id, so the second call changes nothing (was a finding: gauge decremented twice, id released twice; fixed in 5285479). A joiner slipping in between the emptiness test and Remove is the registry:found pair of HandleParticipantJoin",
+		Why:   "two last members leaving at once both see an empty session and both call Remove, but Remove acts only on the session currently registered under its id, so the second call changes nothing (was a finding: gauge decremented twice, id released twice; fixed in 5285479). A joiner slipping in between the emptiness test and Remove is the registry:found pair of HandleParticipantJoin",
 		Needs: func(r *Run) bool { return r.removeIsIdempotent() }},
 	"websocket.(*RealtimeHandler).HandleEntityComponentAdd|entity:exists|EntityComponentStore.Add": {Verdict: "FINDING",
 		Why: "component add by any member against the owner's entity delete: the entity is found, deleted with its components, then the component is stored, relayed and handed to joiners for an entity that no longer exists (probe: 3 of 30000 rounds)"},
@@ -48,13 +48,13 @@ var e8Table = map[string]e8Triage{
 		Why: "two writers of one (entity, name) key may both pass the freshness test; C16 does not quantify over schedules"},
 	"modules/odal.(*Module).handleAssetInstanceAdd|entity:exists|State.SetAssetInstance": {Verdict: "SAFE",
 		Why: "owner only: behind the owner guard, and the owner's delete / departure run on the same connection loop"},
-	"websocket.(*RealtimeHandler).HandleEntityDelete|entity:exists|Session.RemoveEntity": {Verdict: "SAFE", Why: "owner only (owner guard); the owner's requests are sequential on its connection"},
+	"websocket.(*RealtimeHandler).HandleEntityDelete|entity:exists|Session.RemoveEntity":                  {Verdict: "SAFE", Why: "owner only (owner guard); the owner's requests are sequential on its connection"},
 	"websocket.(*RealtimeHandler).HandleEntityDelete|entity:exists|EntityComponentStore.DeleteByEntityID": {Verdict: "SAFE", Why: "owner only (owner guard)"},
-	"websocket.(*RealtimeHandler).HandleEntityUpdatePose|entity:exists|Entity.SetPose": {Verdict: "SAFE", Why: "owner only (owner guard); acts on the entity object itself"},
-	"websocket.(*RealtimeHandler).HandleEntityComponentUpdate|entity:exists|EntityComponentStore.Update": {Verdict: "SAFE", Why: "Update only replaces an existing component; after a concurrent entity delete the cascade has removed it and Update reports failure"},
-	"websocket.(*RealtimeHandler).HandleEntityComponentDelete|entity:exists|EntityComponentStore.Delete": {Verdict: "SAFE", Why: "Delete only removes an existing component and reports absence otherwise"},
-	"websocket.(*RealtimeHandler).leaveSession|entity:exists|Session.RemoveEntity": {Verdict: "SAFE", Why: "the leaver's own entities; only their owner removes them and it is this connection"},
-	"websocket.(*RealtimeHandler).leaveSession|entity:exists|EntityComponentStore.DeleteByEntityID": {Verdict: "SAFE", Why: "the leaver's own entities"},
+	"websocket.(*RealtimeHandler).HandleEntityUpdatePose|entity:exists|Entity.SetPose":                    {Verdict: "SAFE", Why: "owner only (owner guard); acts on the entity object itself"},
+	"websocket.(*RealtimeHandler).HandleEntityComponentUpdate|entity:exists|EntityComponentStore.Update":  {Verdict: "SAFE", Why: "Update only replaces an existing component; after a concurrent entity delete the cascade has removed it and Update reports failure"},
+	"websocket.(*RealtimeHandler).HandleEntityComponentDelete|entity:exists|EntityComponentStore.Delete":  {Verdict: "SAFE", Why: "Delete only removes an existing component and reports absence otherwise"},
+	"websocket.(*RealtimeHandler).leaveSession|entity:exists|Session.RemoveEntity":                        {Verdict: "SAFE", Why: "the leaver's own entities; only their owner removes them and it is this connection"},
+	"websocket.(*RealtimeHandler).leaveSession|entity:exists|EntityComponentStore.DeleteByEntityID":       {Verdict: "SAFE", Why: "the leaver's own entities"},
 }
 
 func (r *Run) e8Decision(g GuardClass) string {
